@@ -158,6 +158,15 @@ class Verifier:
         for part in out:
             nm = "|".join("=".join(g) for g in sorted(part) if len(g) > 1) or "distinct"
             res.append((part, nm))
+        # `opt elemalias=v:points:3`: the receiver may also be one of the elements of a slice of pointers -- one more
+        # partition per index (pseudo-parameter "points[j]" in v's group; see FuncRun.read_cell)
+        ea = c.opts.get("elemalias")
+        if ea:
+            pv, sl, n = str(ea).split(":")
+            base = [g for g in out[0]]
+            for j in range(int(n)):
+                part = [list(g) + (["%s[%d]" % (sl, j)] if pv in g else []) for g in base]
+                res.append((part, "%s=%s[%d]" % (pv, sl, j)))
         return res
 
     # ------------------------------------------------------------ running
